@@ -101,6 +101,12 @@ if __name__ == "__main__":
              "group:11#member@group:12#member", "group:12#member@group:13#member", "group:13#member@1"]
         case("unknown-under-not", nss, T, "doc:1#ok@1", g=4,
              comment="KNOWN FINDING F-unknown: banned is cut short by max-depth, Unknown collapses to NotMember, ! flips it")
+    elif which == "C11":
+        nss = [ns("Doc", rel("parents", [("G2", "members")]), perm("view", "or", ttu("parents", "viewers"))),
+               ns("G2", rel("members", [("Folder", "")])), ns("Folder", rel("viewers", [("Folder", "")]))]
+        T = ["Doc:1#parents@G2:5#members", "G2:5#members@1"]
+        case("ttu-subjectset", nss, T, "Doc:1#view@1", g=6,
+             comment="KNOWN FINDING F-ttu-type: accepted by the type checker, conforming store, run-time schema error")
     elif which == "C03":
         nss = [ns("doc", rel("a", [("group", "member")]), rel("banned", [("group", "member")]),
                   perm("ok", "and", c("a"), NOT(c("banned"))), perm("nand", "or", NOT(AND(c("a"), c("banned"))))), group]
